@@ -107,6 +107,7 @@
       return true; }
     if (n == "vp_reach") { ST.reached.insert(readStr(st, U(0))); return true; }
     if (n == "vp_observe") { if (OPT.concrete) { if (args[0].sym) throw Unsupported{"symbolic observe in concrete mode"}; uint64_t v = args[0].u(); digestBytes(st, &v, 8); } return true; }
+    if (n == "vp_fork_int") { if (!args[0].sym) { setRet(args[0]); return true; } uint64_t v = concPtr(st, args[0]); setRet(Val::conc(args[0].w, v)); return true; }
     if (n == "vp_is_symbolic") { setRet(Val::conc(32, OPT.concrete ? 0 : 1)); return true; }
     // ---- allocation
     if (n == "_Znwm" || n == "_Znam" || n == "malloc" || n == "_ZnwmRKSt9nothrow_t" || n == "_ZnamRKSt9nothrow_t" || n == "_ZnwmSt11align_val_t" || n == "_ZnamSt11align_val_t") { uint64_t sz = U(0); auto o = alloc(st, sz, "heap", true); setRet(Val::conc(64, o->base)); return true; }
